@@ -1,7 +1,7 @@
 (* GenTie.v — the generated definitions (Gen/*.v, regenerated from /repo on every run)
    are the hand model (Model/*.v).  Every theorem about the model is thereby re-checked
    against what the source says now. *)
-From BB Require Import Model.Merges Gen.NumpySem Gen.GSim Gen.GMerges.
+From BB Require Import Model.Merges Model.Mem Gen.NumpySem Gen.GSim Gen.GMerges Gen.GMem.
 From Coq Require Import Lia.
 Open Scope Z_scope.
 
@@ -65,3 +65,12 @@ Proof.
     rewrite ?tie_radius_compl; try reflexivity.
 Qed.
 End Merges.
+
+(* _ArrayMemPagesManager: the two methods the fit loop calls *)
+Lemma tie_should_release m i :
+  GMem.should_release_curr_page (pagesizex m) (iters m) (addr m) i = should_release m i.
+Proof. reflexivity. Qed.
+Lemma tie_release m :
+  GMem.release_curr_page_and_update_addr (pagesizex m) (iters m) (addr m) =
+  ([fst (release m)], addr (snd (release m))).
+Proof. reflexivity. Qed.
